@@ -152,6 +152,25 @@ pub fn run(args: &Args) {
             check_one(&mut rep, &s, "truncation-twin", &strict, false);
         }
     }
+    // (1c) sentences nested a few hundred levels deep (well below the depth of the known stack finding): every
+    // bracket kind, around every power of two
+    if args.shard == 1 % args.shards {
+        for d in [100usize, 126, 127, 128, 129, 130, 200, 254, 255, 256, 257, 258, 300] {
+            let fams: [(&str, String); 8] = [
+                ("groups", format!("{}a{}", "(".repeat(d), ")".repeat(d))),
+                ("lists", format!("{}a{}", "[".repeat(d), "]".repeat(d))),
+                ("hashes", format!("{}a{}", "{k: ".repeat(d), "}".repeat(d))),
+                ("nots", format!("{}a", "!".repeat(d))),
+                ("calls", format!("{}a{}", "abs(".repeat(d), ")".repeat(d))),
+                ("filters", format!("a{}{}", "[?a".repeat(d), "]".repeat(d))),
+                ("group-or", format!("{}a{}", "(a || ".repeat(d), ")".repeat(d))),
+                ("refs", format!("{}a{}", "map(&".repeat(d), ", @)".repeat(d))),
+            ];
+            for (_, text) in fams.iter() {
+                check_one(&mut rep, text, "deep-nesting", &strict, false);
+            }
+        }
+    }
     // (2) random families
     for k in 0..args.n {
         let mut rng = Rng::derive(args.seed, args.shard + 1000, k);
@@ -192,6 +211,11 @@ pub fn run(args: &Args) {
                     rep.sample_family("one-token-mutant-rejected", 2, json!({"sentence": s, "mutant": m}));
                 }
             }
+        } else if fam < 66 {
+            let s = refimpl::sentence::bracket_text_case(&mut rng);
+            check_one(&mut rep, &s, "bracket-text", &strict, false);
+            note_distinct(&mut rep, &s);
+            rep.sample_family("bracket-text", 2, json!(s));
         } else if fam < 68 {
             // many small expressions side by side in one expression
             let s = refimpl::sentence::wide_case(&mut rng);
